@@ -58,12 +58,16 @@ CFG = {
     "harness_pkg": "hx-c18",
     "harness_bin": "c18",
     "n": {"quick": 3000, "thorough": 300000},
-    "rule": "a FIXED family of 240 template shapes is compiled once with the real view! macro (harness/hx-c18/src/shape.rs, "
+    "rule": "a FIXED family of 320 template shapes is compiled once with the real view! macro (harness/hx-c18/src/shape.rs, "
             "build.rs): every attribute form alone and in pairs on an inner element, every tag of the family (10 block, 8 inline, "
             "p/h1-h3, a/button, 5 void, 2 custom, svg/g/circle/rect/path, textarea/script/style/noscript/title) as an inner static "
             "element, roots that are text / several nodes / fragments / the component <Wrap>, the shapes of the four finding "
-            "classes (three of them repaired: regression shapes), then pseudo-random templates of depth <= 3 (0-3 attributes of 8 forms per element, quoted and unquoted text, "
-            "{blocks}, fragments, components; 3/5 of the subtrees fully static so that the inert path is taken). Each shape in three "
+            "classes (three of them repaired: regression shapes), EVERY node kind the macro accepts in every position (fragments "
+            "with 0/1/2/3 children and nested in each other, comments, unquoted text, components with children and nested "
+            "components, MathML and SVG subtrees, 17-20 children so that tuples are chunked — each inside a fully static and "
+            "inside a dynamic non-root element, at the root, inside fragments and components; <!DOCTYPE html> as first root), then pseudo-random templates of depth <= 3 (0-3 attributes of 8 forms per element, quoted and unquoted text, "
+            "{blocks} only in dynamic subtrees, fragments (possibly empty), comments, components, svg, math in static and dynamic "
+            "subtrees alike; 3/5 of the subtrees without dynamic holes). Each shape in three "
             "variants: as written, forced-dynamic twin (every literal a {..} with the same value), one extra dynamic sibling inside "
             "a seed-independent element. The seed chooses the values of all dynamic holes (hostile alphabet < > & \" ' = ` <!-- --> "
             "]]> </script </title> &amp; &#x3c; multi-byte, arbitrary scalar values, class/style-shaped strings, empty strings) and "
@@ -99,7 +103,7 @@ CFG = {
                 "of the unrestricted statements with a kernel-checked witness replayed on the real macro (<!> marker inside "
                 "title/textarea/script/style); three defects repaired in /repo (fix-c18-1 noscript escaped at macro time only, fix-c18-3 "
                 "class trimmed at run time only, fix-c18-4 empty text vs one space), the pre-repair printer kept as inertHtmlOld with "
-                "regression witnesses. Table theorems over the regenerated element lists (macro no-escape list = runtime table). Tied to the code by compiling 240 template shapes x 3 variants with the real "
+                "regression witnesses. Table theorems over the regenerated element lists (macro no-escape list = runtime table). Tied to the code by compiling 320 template shapes x 3 variants with the real "
                 "macro and comparing the rendered bytes with the compiled model, plus an independent tree oracle.",
         "design_ref": "DESIGN.md §7 C18",
         "note": "model hand-written, faithfulness checked by correspondence on the compiled expansions; the parser subset is C06's",
